@@ -9,14 +9,14 @@ open VgiVerif.C05 VgiVerif.Gen.C05
 
 /-- the tree before `fix: a request naming an unusable shared-memory segment …` and `fix: a request the server could not decode …` -/
 def pinned : Tables :=
-  { Tables.gen with attachGuard := [], attachConvert := [], pointerGuard := [], releaseGuard := [], traceDecode := [], asPyGuard := [],
+  { Tables.gen with attachGuard := [], attachConvert := [], resolveConvert := [], pointerGuard := [], releaseGuard := [], traceDecode := [], asPyGuard := [],
                     firstRead := [], drainSkips := [], firstReadDrains := false, firstDrainSkips := [], firstDrainEnds := [] }
 
 /-- a plain valid `add(1, 2)` -/
 def valid : Req :=
   { openStream := .ok, firstRead := .ok, laterReads := [], hasMethod := true, methodText := true, version := .current,
     traceparent := .absent, tracestate := .absent, shmName := .absent, shmSize := .absent, isPointer := false,
-    staticShm := false, shmOpen := .ok, allocInit := .ok, resolve := .ok, release := .ok, ncols := 2, rows := 1, asPy := .ok,
+    staticShm := false, shmOpen := .ok, allocInit := .ok, resolve := .ok, deser := .ok, release := .ok, ncols := 2, rows := 1, asPy := .ok,
     isTransportOptions := false, methodKnown := true, versionCheck := .ok, validate := .ok, call := .ok }
 
 def missingSegment : Req := { valid with shmName := .text, shmSize := .numeric, shmOpen := .raises .FileNotFoundError }
@@ -60,6 +60,20 @@ def tinySegment : Req := { valid with shmName := .text, shmSize := .numeric, all
 theorem tiny_segment_needs_conversion :
     (serveOne { Tables.gen with attachConvert := [.ValueError] } tinySegment).outcome = .silentStop ∧
     (serveOne Tables.gen tinySegment).outcome = .replyContinue := by decide
+
+/-- a pointer at a region that holds an IPC stream without a batch (StopIteration), or bytes that are not IPC framing
+(OSError): unless `resolve_shm_batch` turns them into ValueError, the first ends the serve loop as "peer closed", the second
+escapes `serve()` — no reply either way -/
+def pointerSchemaOnly : Req :=
+  { valid with shmName := .text, shmSize := .numeric, isPointer := true, rows := 0, deser := .raises .StopIteration }
+def pointerNotIpc : Req :=
+  { valid with shmName := .text, shmSize := .numeric, isPointer := true, rows := 0, deser := .raises .OSError }
+
+theorem region_read_needs_conversion :
+    (serveOne { Tables.gen with resolveConvert := [] } pointerSchemaOnly).outcome = .silentStop ∧
+    (serveOne { Tables.gen with resolveConvert := [] } pointerNotIpc).outcome = .silentStop ∧
+    (serveOne Tables.gen pointerSchemaOnly).outcome = .replyContinue ∧
+    (serveOne Tables.gen pointerNotIpc).outcome = .replyContinue := by decide
 
 theorem assert_gone : Gen.C05.pointerAssertsLength = false := by decide
 
